@@ -56,6 +56,8 @@ def run_case(rng, tier, idx):
     lam = d['lam']
     c.nontrivial = (lam['kind'] in ('unsym',) or lam['offset'] != 0 or d['flags']['_style'] != 'ss')
     p = gen.build_panel(d)
+    for k_ in gen.leftovers(rng, p):
+        c.tag('left:' + k_)
     size_p = (1 if d['model'] == 'plate_w' else 3) * d['m'] * d['n']
     try:
         K = p.calc_k0(size=d['size'], row0=d['row0'], col0=d['row0'], silent=True)
